@@ -4,6 +4,6 @@
 WT="$1"; PATCH="$2"; shift 2
 git -C "$WT" checkout -q -- . && git -C "$WT" apply "$PATCH" || { echo "patch does not apply"; exit 2; }
 for P in "$@"; do
-  QIBO_REPO="$WT" /verif/bin/check "$P" --tier quick 2>&1 | grep -E "^VIOLATION|^KNOWN|^\[" | cut -c1-220
+  VERIF_BUILD_TAG=try QIBO_REPO="$WT" /verif/bin/check "$P" --tier quick 2>&1 | grep -E "^VIOLATION|^KNOWN|^\[" | cut -c1-220
 done
 git -C "$WT" checkout -q -- .
